@@ -95,11 +95,8 @@ def BinderDecl : Node → String → Prop
 def UsesLit (declare : Bool) (t : SType) (x : String) : Prop :=
   ∃ m, Reach declare (.ty t) m ∧ Leads m x
 
-/-- Rust identifies a raw identifier with the plain one: `r#T` *is* `T` -/
-def unraw (s : String) : String :=
-  match s.toList with
-  | 'r' :: '#' :: rest => String.ofList rest
-  | _ => s
+/- Rust identifies a raw identifier with the plain one: `r#T` *is* `T` (`Usage.unraw`,
+   the mirror of `Ident::unraw`, strips the prefix). -/
 
 /-- the written name `i` denotes the parameter `p` -/
 def Denotes (i p : String) : Prop := unraw i = unraw p
@@ -248,8 +245,10 @@ theorem paramsAt_garg (g) : paramsAt d S (.garg g) = gargParams d S g := rfl
 theorem paramsAt_bound (b) : paramsAt d S (.bound b) = boundParams d S b := rfl
 end
 
-theorem identHits_mem {S : List String} {i p : String} : p ∈ identHits S i ↔ p ∈ S ∧ p = i := by
-  simp [identHits, List.mem_filter]
+theorem identHits_mem {S : List String} {i p : String} :
+    p ∈ identHits S i ↔ p ∈ S ∧ Denotes i p := by
+  simp only [identHits, List.mem_filter, beq_iff_eq, Denotes]
+  exact ⟨fun ⟨h1, h2⟩ => ⟨h1, h2.symm⟩, fun ⟨h1, h2⟩ => ⟨h1, h2.symm⟩⟩
 
 /-- "the answer for a collection is the union of its members' answers" — lists of types -/
 theorem mem_tysParams (d : Bool) (S : List String) (p : String) : ∀ ts : List SType,
@@ -296,15 +295,19 @@ theorem exists_image₂ {α β : Type} {A : α → β → Prop} {g : β → Node
 attribute [local simp] paramsAt_ty paramsAt_path paramsAt_args paramsAt_garg paramsAt_bound
   exists_image exists_image₂
 
+/-- the name written as the leading segment of the path node `n` denotes `p` -/
+def LeadsAs (n : Node) (p : String) : Prop := ∃ i, Leads n i ∧ Denotes i p
+
 /-- the model, one step at a time: a name is in the answer at `n` iff it is a queried name
-    leading the path `n`, or it is in the answer at a `Child` of `n` -/
+    denoted by the leading segment of the path `n`, or it is in the answer at a `Child` of `n` -/
 theorem params_step (d : Bool) (S : List String) (n : Node) (p : String) :
-    p ∈ paramsAt d S n ↔ (p ∈ S ∧ Leads n p) ∨ ∃ m, Child d n m ∧ p ∈ paramsAt d S m := by
+    p ∈ paramsAt d S n ↔ (p ∈ S ∧ LeadsAs n p) ∨ ∃ m, Child d n m ∧ p ∈ paramsAt d S m := by
+  unfold LeadsAs
   cases n with
   | ty t =>
       cases t with
       | path q pa =>
-          simp only [paramsAt_ty, tyParams, Leads, and_false, false_or, child_path, List.mem_append]
+          simp only [paramsAt_ty, tyParams, Leads, child_path, List.mem_append]
           cases d
           · simp
           · simp [mem_optTyParams]
@@ -353,63 +356,40 @@ theorem params_step (d : Bool) (S : List String) (n : Node) (p : String) :
 
 /-! ## 6. Type parameters: end-to-end theorems -/
 
-/-- the answer at any node: exactly the queried names that lead a reachable path -/
+/-- the answer at any node: exactly the queried names denoted by the leading segment of a
+    reachable path -/
 theorem paramsAt_iff (d : Bool) (S : List String) (n : Node) (p : String) :
-    p ∈ paramsAt d S n ↔ p ∈ S ∧ ∃ m, Reach d n m ∧ Leads m p := by
-  rw [engine (paramsAt d S) (fun n p => p ∈ S ∧ Leads n p) (params_step d S) n p]
+    p ∈ paramsAt d S n ↔ p ∈ S ∧ ∃ m, Reach d n m ∧ LeadsAs m p := by
+  rw [engine (paramsAt d S) (fun n p => p ∈ S ∧ LeadsAs n p) (params_step d S) n p]
   constructor
   · rintro ⟨m, hr, hs, hl⟩; exact ⟨hs, m, hr, hl⟩
   · rintro ⟨hs, m, hr, hl⟩; exact ⟨m, hr, hs, hl⟩
 
-/-- **exactness, names as written** (no side condition): for every type, query set and
-    purpose the analysis returns exactly the members of the set that are written as the
-    unqualified leading segment of a path reachable through the constructs the text lists -/
-theorem params_literal (d : Bool) (S : List String) (t : SType) (p : String) :
-    p ∈ tyParams d S t ↔ p ∈ S ∧ UsesLit d t p :=
-  paramsAt_iff d S (.ty t) p
+theorem denotes_refl (p : String) : Denotes p p := rfl
+
+/-- **exactness against the specification of the text** (no side condition): for every type,
+    every query set and both purposes the analysis returns exactly those members of the set
+    that occur where they denote the parameter -/
+theorem params_spec (d : Bool) (S : List String) (t : SType) (p : String) :
+    p ∈ tyParams d S t ↔ p ∈ S ∧ Uses d t p := by
+  rw [← paramsAt_ty, paramsAt_iff]
+  constructor
+  · rintro ⟨hs, m, hr, i, hl, hd⟩; exact ⟨hs, i, ⟨m, hr, hl⟩, hd⟩
+  · rintro ⟨hs, i, ⟨m, hr, hl⟩, hd⟩; exact ⟨hs, m, hr, i, hl, hd⟩
+
+/-- a queried name written literally at a use position is reported -/
+theorem params_of_literal (d : Bool) (S : List String) (t : SType) (p : String)
+    (hs : p ∈ S) (h : UsesLit d t p) : p ∈ tyParams d S t :=
+  (params_spec d S t p).mpr ⟨hs, p, h, denotes_refl p⟩
 
 /-- "never a name outside the queried set" -/
 theorem params_subset (d : Bool) (S : List String) (t : SType) (p : String)
-    (h : p ∈ tyParams d S t) : p ∈ S := ((params_literal d S t p).mp h).1
+    (h : p ∈ tyParams d S t) : p ∈ S := ((params_spec d S t p).mp h).1
 
 /-- the answer does not depend on what else is in the query set -/
 theorem params_query_independent (d : Bool) (S S' : List String) (t : SType) (p : String)
     (hS : p ∈ S) (hS' : p ∈ S') : p ∈ tyParams d S t ↔ p ∈ tyParams d S' t := by
-  simp only [params_literal, hS, hS', true_and]
-
-theorem denotes_refl (p : String) : Denotes p p := rfl
-
-/-- the query set and the type spell every parameter consistently: whenever a written name
-    denotes a queried parameter, that parameter is also written literally at a use position.
-    (This is the *weakest* condition under which model and specification agree, see
-    `consistent_of_params_spec`.) -/
-def Consistent (d : Bool) (S : List String) (t : SType) : Prop :=
-  ∀ p, p ∈ S → ∀ i, UsesLit d t i → Denotes i p → UsesLit d t p
-
-/-- **exactness against the specification of the text**: the analysis returns exactly those
-    members of the set that occur where they denote the parameter — provided raw and plain
-    spellings are not mixed (`Consistent`).  Without the proviso the statement is false, see
-    `raw_discrepancy_*` below. -/
-theorem params_spec_partial (d : Bool) (S : List String) (t : SType) (h : Consistent d S t)
-    (p : String) : p ∈ tyParams d S t ↔ p ∈ S ∧ Uses d t p := by
-  rw [params_literal]
-  constructor
-  · rintro ⟨hs, hu⟩; exact ⟨hs, p, hu, denotes_refl p⟩
-  · rintro ⟨hs, i, hu, hd⟩; exact ⟨hs, h p hs i hu hd⟩
-
-/-- the side condition of `params_spec_partial` is necessary -/
-theorem consistent_of_params_spec (d : Bool) (S : List String) (t : SType)
-    (h : ∀ p, p ∈ tyParams d S t ↔ p ∈ S ∧ Uses d t p) : Consistent d S t := by
-  intro p hs i hu hd
-  exact ((params_literal d S t p).mp ((h p).mpr ⟨hs, i, hu, hd⟩)).2
-
-/-- a sufficient, easily checked condition: nobody writes a raw identifier -/
-theorem consistent_of_plain (d : Bool) (S : List String) (t : SType)
-    (hS : ∀ p, p ∈ S → unraw p = p) (ht : ∀ i, UsesLit d t i → unraw i = i) :
-    Consistent d S t := by
-  intro p hs i hu hd
-  have : i = p := by rw [← ht i hu, ← hS p hs]; exact hd
-  exact this ▸ hu
+  simp only [params_spec, hS, hS', true_and]
 
 /-- "inside a qualified-self only when asked for declaration purposes", positive half: for
     `Declare` everything used by the qualified self is used by the path type -/
@@ -469,9 +449,9 @@ theorem reach_mono {n m : Node} (h : Reach false n m) : Reach true n m := by
 
 theorem bounding_subset_declaring (S : List String) (t : SType) (p : String)
     (h : p ∈ tyParams false S t) : p ∈ tyParams true S t := by
-  rw [params_literal] at h ⊢
-  obtain ⟨hs, m, hr, hl⟩ := h
-  exact ⟨hs, m, reach_mono hr, hl⟩
+  rw [params_spec] at h ⊢
+  obtain ⟨hs, i, ⟨m, hr, hl⟩, hd⟩ := h
+  exact ⟨hs, i, ⟨m, reach_mono hr, hl⟩, hd⟩
 
 /-! ### collections -/
 
@@ -542,24 +522,15 @@ theorem usedBy_union (declared : List String) (b : Body) (p : String) :
 def NeedsBound (declared : List String) (b : Body) (p : String) : Prop :=
   p ∈ declared ∧ ∃ f, Parsed b f ∧ Uses false f.ty p
 
-/-- exactness of the bounds, names as written (no side condition) -/
-theorem bounds_literal (declared : List String) (b : Body) (p : String) :
-    p ∈ boundedParams declared (usedBy declared b) ↔
-      p ∈ declared ∧ ∃ f, Parsed b f ∧ UsesLit false f.ty p := by
-  simp only [boundedParams, List.mem_filter, List.contains_iff_mem, usedBy_union, params_literal]
+/-- **the bound goes to exactly the declared type parameters used by parsed fields**
+    (no side condition; struct and enum bodies) -/
+theorem bounds_spec (declared : List String) (b : Body) (p : String) :
+    p ∈ boundedParams declared (usedBy declared b) ↔ NeedsBound declared b p := by
+  simp only [boundedParams, List.mem_filter, List.contains_iff_mem, usedBy_union, params_spec,
+    NeedsBound]
   constructor
   · rintro ⟨hd, f, hf, _, hu⟩; exact ⟨hd, f, hf, hu⟩
   · rintro ⟨hd, f, hf, hu⟩; exact ⟨hd, f, hf, hd, hu⟩
-
-/-- **the bound goes to exactly the declared type parameters used by parsed fields** —
-    provided raw and plain spellings are not mixed in any parsed field -/
-theorem bounds_spec_partial (declared : List String) (b : Body)
-    (h : ∀ f, Parsed b f → Consistent false declared f.ty) (p : String) :
-    p ∈ boundedParams declared (usedBy declared b) ↔ NeedsBound declared b p := by
-  rw [bounds_literal]
-  constructor
-  · rintro ⟨hd, f, hf, hu⟩; exact ⟨hd, f, hf, p, hu, denotes_refl p⟩
-  · rintro ⟨hd, f, hf, i, hu, hden⟩; exact ⟨hd, f, hf, h f hf p hd i hu hden⟩
 
 /-- the emitted parameter list is the declared one, in order, each parameter at most marked -/
 theorem bounded_is_filter (declared used : List String) :
@@ -842,7 +813,7 @@ theorem spec_const_arg (d : Bool) (c x : String) :
   · rintro rfl
     exact ⟨_, .step .typePath .here, rfl⟩
 
-/-! ## 8. Discrepancies between the property text and the model (both reproduce on the library) -/
+/-! ## 8. Raw identifiers (repaired) and the one remaining discrepancy (binders) -/
 
 def tyName (x : String) : SType := .path none (.mk false [.mk x .none])
 def tyApp (c : String) (a : SType) : SType := .path none (.mk false [.mk c (.angle [.ty a])])
@@ -850,24 +821,29 @@ def tyApp (c : String) (a : SType) : SType := .path none (.mk false [.mk c (.ang
 /-- `Option<r#T>` -/
 def optRawT : SType := tyApp "Option" (tyName "r#T")
 
-/-- the model: `T` is not used by `Option<r#T>` … -/
-example : tyParams false ["T"] optRawT = [] := by decide
-example : tyParams true ["T"] optRawT = [] := by decide
+/-- formerly a discrepancy (the library compared spellings; repaired): `T` is used by
+    `Option<r#T>`, and `r#T` by `Option<T>`, under both purposes … -/
+example : tyParams false ["T"] optRawT = ["T"] := by decide
+example : tyParams true ["T"] optRawT = ["T"] := by decide
+example : tyParams false ["r#T"] (tyApp "Option" (tyName "T")) = ["r#T"] := by decide
 
-/-- … the text: `r#T` occurs inside generic arguments as an unqualified leading segment and
-    denotes the parameter `T` -/
-theorem raw_discrepancy_uses : Uses false optRawT "T" :=
-  ⟨"r#T", ((params_literal false ["r#T"] optRawT "r#T").mp (by decide)).2, by decide⟩
+/-- … as the text demands: `r#T` occurs inside generic arguments as an unqualified leading
+    segment and denotes the parameter `T` -/
+theorem raw_uses : Uses false optRawT "T" :=
+  ((params_spec false ["T"] optRawT "T").mp (by decide)).2
 
-theorem raw_discrepancy_not_consistent : ¬ Consistent false ["T"] optRawT := fun h =>
-  absurd ((params_spec_partial false ["T"] optRawT h "T").mpr ⟨by decide, raw_discrepancy_uses⟩)
-    (by decide)
+/-- the same fact straight from the tables (no model involved) -/
+example : Uses false optRawT "T" :=
+  ⟨"r#T",
+   ⟨_, .step .typePath (.step (.segArgs (List.mem_singleton.mpr rfl))
+        (.step (.angleArg (List.mem_singleton.mpr rfl)) (.step .argTy (.step .typePath .here)))),
+    rfl⟩,
+   by decide⟩
 
-/-- consequence for the emitted bounds: `struct R<T> { a: Option<r#T> }` gets no bound on `T`
-    although the parsed field `a` uses `T` -/
-example : boundedParams ["T"] (usedBy ["T"] (.struct [⟨optRawT, false⟩])) = [] := by decide
-theorem raw_discrepancy_bound : NeedsBound ["T"] (.struct [⟨optRawT, false⟩]) "T" :=
-  ⟨by decide, ⟨optRawT, false⟩, ⟨by simp, rfl⟩, raw_discrepancy_uses⟩
+/-- consequence for the emitted bounds: `struct R<T> { a: Option<r#T> }` gets the bound on `T` -/
+example : boundedParams ["T"] (usedBy ["T"] (.struct [⟨optRawT, false⟩])) = ["T"] := by decide
+theorem raw_bound : NeedsBound ["T"] (.struct [⟨optRawT, false⟩]) "T" :=
+  ⟨by decide, ⟨optRawT, false⟩, ⟨by simp, rfl⟩, raw_uses⟩
 
 /-- `dyn for<'a> Tr` -/
 def dynForA : SType := .traitObject [.trait [("'a", [])] (.mk false [.mk "Tr" .none])]
@@ -936,62 +912,27 @@ def vecT : SType := tyApp "Vec" (tyName "T")
 /-- `<U as Iterator>::Item` -/
 def assocU : SType := .path (some (tyName "U")) (.mk false [.mk "Iterator" .none, .mk "Item" .none])
 
-theorem usesLit_mem {d : Bool} {t : SType} {i : String} (h : UsesLit d t i) :
-    i ∈ tyParams d [i] t := (params_literal d [i] t i).mpr ⟨List.mem_singleton.mpr rfl, h⟩
-
-/-- `Consistent` holds on an ordinary input, whatever plain names are queried … -/
-theorem consistent_vecT (S : List String) (hS : ∀ p, p ∈ S → unraw p = p) :
-    Consistent false S vecT := by
-  apply consistent_of_plain _ _ _ hS
-  intro i h
-  have h := usesLit_mem h
-  simp [vecT, tyApp, tyName, tyParams, pathParams, segsParams, argsParams, gargsParams,
-    gargParams, identHits] at h
-  rcases h with rfl | rfl <;> decide
-
-/-- … e.g. with a used and an unused queried name -/
-theorem consistent_example : Consistent false ["T", "U"] vecT := consistent_vecT _ (by decide)
-
-/-- … and there the specification is met with a non-empty answer -/
+/-- the specification is met with a non-empty answer, and with a queried name left out -/
 example : "T" ∈ tyParams false ["T", "U"] vecT ∧ "U" ∉ tyParams false ["T", "U"] vecT := by decide
-example : Uses false vecT "T" :=
-  ((params_spec_partial false ["T", "U"] vecT consistent_example "T").mp (by decide)).2
+example : Uses false vecT "T" := ((params_spec false ["T", "U"] vecT "T").mp (by decide)).2
 example : ¬ Uses false vecT "U" := fun h =>
-  absurd ((params_spec_partial false ["T", "U"] vecT consistent_example "U").mpr ⟨by decide, h⟩)
-    (by decide)
+  absurd ((params_spec false ["T", "U"] vecT "U").mpr ⟨by decide, h⟩) (by decide)
 
 /-- the purpose matters on `<U as Iterator>::Item` -/
 example : tyParams false ["T", "U"] assocU = [] ∧ tyParams true ["T", "U"] assocU = ["U"] := by decide
 example : UsesLit true assocU "U" := qself_counts_when_declaring _ _ _ ⟨_, .step .typePath .here, rfl⟩
 
-/-- hypothesis of `bounds_spec_partial`: an enum with a skipped variant and a skipped field -/
+/-- an enum with a skipped variant and a skipped field -/
 def bodyExample : Body :=
   .enum [(false, [⟨vecT, false⟩, ⟨tyName "U", true⟩]), (true, [⟨tyName "V", false⟩])]
 
 example : boundedParams ["T", "U", "V"] (usedBy ["T", "U", "V"] bodyExample) = ["T"] := by decide
 
-theorem parsed_bodyExample {f : BField} (h : Parsed bodyExample f) : f = ⟨vecT, false⟩ := by
-  obtain ⟨v, hv, hs, hf, hfs⟩ := h
-  simp only [List.mem_cons, List.mem_nil_iff, or_false] at hv
-  rcases hv with rfl | rfl
-  · simp only [List.mem_cons, List.mem_nil_iff, or_false] at hf
-    rcases hf with rfl | rfl
-    · rfl
-    · cases hfs
-  · cases hs
-
-theorem bounds_hypothesis_example :
-    ∀ f, Parsed bodyExample f → Consistent false ["T", "U", "V"] f.ty := by
-  intro f hf
-  rw [parsed_bodyExample hf]
-  exact consistent_vecT _ (by decide)
-
-example : NeedsBound ["T", "U", "V"] bodyExample "T" :=
-  (bounds_spec_partial _ _ bounds_hypothesis_example "T").mp (by decide)
+example : NeedsBound ["T", "U", "V"] bodyExample "T" := (bounds_spec _ _ "T").mp (by decide)
 example : ¬ NeedsBound ["T", "U", "V"] bodyExample "U" := fun h =>
-  absurd ((bounds_spec_partial _ _ bounds_hypothesis_example "U").mpr h) (by decide)
+  absurd ((bounds_spec _ _ "U").mpr h) (by decide)
 example : ¬ NeedsBound ["T", "U", "V"] bodyExample "V" := fun h =>
-  absurd ((bounds_spec_partial _ _ bounds_hypothesis_example "V").mpr h) (by decide)
+  absurd ((bounds_spec _ _ "V").mpr h) (by decide)
 
 /-- `'x`-binder plus a genuine use of `'a`: `dyn for<'x> Tr + 'a` -/
 def dynForX : SType := .traitObject [.trait [("'x", [])] (.mk false [.mk "Tr" .none]), .lifetime "'a"]
